@@ -4,10 +4,10 @@ P="$(realpath "$1")"; T="$2"; shift 2
 cd /repo || exit 2
 if [ -n "$(git status --porcelain --untracked-files=no)" ]; then echo "repo dirty"; exit 2; fi
 if ! git apply "$P" 2>/dev/null; then
-  if ! git apply -3 "$P" 2>/dev/null; then echo "APPLY-FAILED $P"; git checkout -- . ; exit 3; fi
+  if ! git apply -3 "$P" 2>/dev/null; then echo "APPLY-FAILED $P"; git reset -q; git checkout -- . ; exit 3; fi
   git reset -q
 fi
-trap 'git -C /repo checkout -- . ' EXIT
+trap 'git -C /repo reset -q; git -C /repo checkout -- . ' EXIT
 for id in "$@"; do
   out=$(cd /verif && ./run.sh "$id" "$T" 2>&1); rc=$?
   nv=$(echo "$out" | grep -c '^VIOLATION')
